@@ -132,6 +132,7 @@ func Load(repo, goos, goarch string) (*Program, error) {
 	InitFieldCanon(p)
 	InitFuncCanon(p)
 	InitGlobalCanon(p)
+	InitCmpCanon(p)
 	return p, nil
 }
 
